@@ -336,6 +336,15 @@ func (m *C14Mon) OnBlock(blk *hist.Block) []Finding {
 			out = append(out, Finding{"C14", "C14/funds/escrow-accounting", fmt.Sprintf("block %d: escrow of proposal %s is %s; previous %s plus contributions %s minus withdrawals %s gives %s", blk.H, id[:10], ce, pe, get(contribNow, id), get(withdrawNow, id), want)})
 		}
 	}
+	// a proposal that is still being voted on at the end of a block is one the recorded votes do not decide
+	for id, cp := range cur {
+		if phase(cp) != "voting" || len(votesOf(blk.Cur, id)) == 0 {
+			continue
+		}
+		if got := tally(votesOf(blk.Cur, id), cp.PassPercent); got != "tbd" {
+			out = append(out, Finding{"C14", "C14/outcome/undecided-but-votes-say-" + got, fmt.Sprintf("block %d: proposal %s is still being voted on, the recorded votes (pass percentage %d) give %s", blk.H, id[:10], cp.PassPercent, got)})
+		}
+	}
 	// configuration records change only when a passed config proposal is finalised
 	changed := optionRecordsChanged(blk.Prev, blk.Cur)
 	if blk.H == m.Frankenstein || blk.H == 1 {
